@@ -18,7 +18,9 @@ OPts == Tr.pts
 ON == Len(OPts)
 OEnd == OPts[ON]
 OInSpan(s) == Sorted({t \in ToSetS(Tr.meas[s]) : t >= Tr.start /\ t < OEnd})
-ExpWidth(s) == IF Tr.alt \/ Tr.names[s] = "BodyVelocity" THEN 3 ELSE 2
+\* rows of (z, H, R): the built-in classes give 3, Position / NedVelocity 2 without altitude; "BaroAltitude" is the harness' own
+\* scalar user-defined measurement (documented extension point), used in 3D runs only
+ExpWidth(s) == IF Tr.names[s] = "BaroAltitude" THEN 1 ELSE IF Tr.alt \/ Tr.names[s] = "BodyVelocity" THEN 3 ELSE 2
 MLines == SelectSeq(Ev, LAMBDA e : e.a = "M")
 ALines == SelectSeq(Ev, LAMBDA e : e.a = "A")
 UsedEv(s) == LET ms == SelectSeq(MLines, LAMBDA e : s \in ToSetS(e.hits)) IN [k \in 1..Len(ms) |-> ms[k].t]
@@ -58,7 +60,7 @@ DataflowClause ==
     /\ \A k \in 1..Len(MLines) :
           /\ MLines[k].pva_ok        \* the measurement models see the computed trajectory interpolated AT the epoch between the bracketing rows
           /\ \A j \in 1..Len(MLines[k].c) :
-                /\ MLines[k].c[j].pin_ok /\ MLines[k].c[j].xin_ok /\ MLines[k].c[j].args_ok
+                /\ MLines[k].c[j].pin_ok /\ MLines[k].c[j].xin_ok /\ MLines[k].c[j].args_ok /\ MLines[k].c[j].out_ok
     /\ \A k \in 1..Len(ALines) : ALines[k].dt_ok /\ ALines[k].fq_ok  \* propagation interval = the step the result index takes; (F, Q) = the joint
                                                                    \* system of JointSystem.tla's block terms at the mid-point state
     /\ (Obs.flow.rows_ok => Obs.flow.sd_ok /\ Obs.flow.est_ok /\ Obs.flow.comp_ok) /\ Obs.flow.innov_ok
